@@ -373,6 +373,12 @@ func c20R3(h H) {
 							if p, _ := fieldPath(c.Call.Args[0]); strings.HasSuffix(p, "responseRecorder."+spec[1]) {
 								ok = true
 							}
+							// or through the recorder's accessor method, which returns exactly that field
+							if ac, isCall := c.Call.Args[0].(*ssa.Call); isCall && len(ac.Call.Args) == 1 {
+								if p, _ := fieldPath(ac.Call.Args[0]); strings.HasSuffix(p, "responseRecorder") && accessorOf(ac.Call.StaticCallee()) == spec[1] {
+									ok = true
+								}
+							}
 						}
 					}
 					return true
